@@ -4,6 +4,7 @@ import AvroModel.Theorems.C20names
 import AvroModel.Theorems.C20fits
 import AvroModel.Theorems.C20more
 import AvroModel.Theorems.C20wider
+import AvroModel.Theorems.C20widerU
 /-
 C20 — derived schemas fit their types, all parts together:
 * `Theorems/C20.lean`: the reuse discipline of `find_or_build` (a registered type is never built
